@@ -119,6 +119,15 @@ for k, v in UNITS.items():
     v["name"] = k
 
 PROPS = {
+    "C10": {
+        "units": ["header_list", "cors", "server"],
+        "level": "proof",
+        "samples": [
+            "Header::get_header_list / postcondition / exists now: hvs(res@) == cors_headers_expected(*request) + fixed_headers(now)",
+            "Server::bad_request_response / postcondition / is_bad_request(res@, message@)  (the 400 answer serialises exactly fixed_headers)",
+        ],
+        "assumptions": [],
+    },
     "C05": {
         "units": ["response_gen", "server", "header_list", "cors"],
         "level": "proof",
